@@ -15,6 +15,7 @@ E1_NOTE = "Trusted: the harness's reference model and canonical key (DESIGN.md a
 NOT_APPLICABLE = {}
 
 ENGINES = [
+    {'name': 'schedx', 'path': 'engine/sched.c', 'serves_properties': ['C06'], 'kind_free_text': 'controlled scheduler: ucontext coroutines, the -fsanitize=thread compiler ABI implemented by the harness so that every shared-memory access of the unmodified library is a scheduling point; stateless DFS over all interleavings with visited-state pruning'},
     {'name': 'seqx', 'path': 'engine/mc.h', 'serves_properties': ['C01', 'C02', 'C03', 'C04', 'C05', 'C07', 'C08', 'C12', 'C09', 'C10', 'C13', 'C14', 'C15', 'C19'], 'kind_free_text': 'explicit-state breadth-first closure search over the real library code; state = operation history replayed on fresh objects, deduplicated by a canonical serialisation of the real data structure; reference model + oracles on every transition'},
 ]
 
@@ -161,5 +162,17 @@ PROPS = {
         'jobs': [{'world': 'ptr', 'src': 'worlds/ptr_world.c', 'lib': ['memory.c'], 'flavours': RELDBG_ALWAYS}],
         'rule': 'breadth-first search to closure; a state is non-trivial when some allocation has at least two references (or, for unique pointers, some pointer owns memory)',
         'assumptions': ASSUME_E1,
+    },
+    'C06': {
+        'level': 'model_checking',
+        'engine': 'schedx',
+        'claim': 'Exhaustive over sequentially consistent interleavings: the unmodified src/memory.c (compiled with -fsanitize=thread as an instrumentation pass, TSan runtime NOT linked) runs under a hand-written scheduler in which every atomic operation and every plain load/store of the bookkeeping block, every malloc/free and every sched_yield is a scheduling point; for every 2-thread combination of programs of length <= 2 (thorough 3 x 2) over {reset, share, lock+get, weak_from, weak_reset, unique} x 4 initial reference configurations, all 3-thread single-operation combinations, last-owner reset against two lockers, and 4-thread combinations, ALL interleavings are explored depth-first with visited-state pruning (state = arena bytes + block table + scenario world + every thread\'s real continuation: saved registers and live coroutine stack). Oracles on every execution: exactly-once clear/free of memory and bookkeeping, never while an owner is held, lock soundness, no access into a freed block, no double free, no deadlock (a spinning thread is blocked until memory changes), and a data race = two co-enabled conflicting accesses of which one is not atomic.',
+        'note': 'Sequentially consistent executions of the accesses the compiler kept (gcc 12 -O2 and -O0); weak-memory reorderings are not modelled (every atomic operation of memory.c is seq_cst today; the number of weaker ones executed by scheduled threads is counted in the evidence). At most 4 threads. The harness\'s own probes of the managed memory are liveness checks, not race participants.',
+        'technique': 'stateless depth-first exploration of all thread interleavings of the real code under a controlled scheduler (TSan compiler ABI with own runtime), visited-state pruning on real continuations',
+        'jobs': [{'world': 'c06', 'src': 'worlds/c06_world.c', 'lib': ['memory.c'], 'san': ['-g', '-fsanitize=thread'], 'wsan': ['-g'], 'extra_src': ['engine/sched.c'],
+                  'link': ['-Wl,--wrap=malloc,--wrap=free,--wrap=abort,--wrap=sched_yield'], 'flavours': RELDBG_ALWAYS}],
+        'rule': 'every scenario explored to exhaustion; states = distinct scheduler states (visited set), transitions = executed steps out of new states; a state is counted non-trivial always (every state is a multi-thread scheduling choice point)',
+        'assumptions': ['sequential consistency (SC interleavings only)', 'at most 4 threads, programs of at most 3 operations', 'scheduling points at every instrumented access to library-allocated memory; accesses to a thread\'s own pointer objects are thread-private'],
+        'deadline': {'quick': 240, 'thorough': 3000},
     },
 }
